@@ -84,7 +84,7 @@ PROPS["C04"] = {
 
 PROPS["C05"] = {
     "units": [
-        rapid("cache-model", "packetcache", "TestVerif_C05_CacheModel", 2000, 10000),
+        rapid("cache-model", "packetcache", "TestVerif_C05_CacheModel", 2000, 10000, quick_shards=4),
         rapid("concurrent", "packetcache", "TestVerif_C05_Concurrent", 12, 60, race=True, shards=8),
         rapid("writer-path", "rtpconn", "TestVerif_C05_WriterPath", 100, 600),
     ],
@@ -107,7 +107,7 @@ PROPS["C06"] = {
 PROPS["C11"] = {
     "units": [
         plain("regress", "rtpconn", "TestVerif_C11_Regress_.*"),
-        rapid("permission-machine", "rtpconn", "TestVerif_C11_PermissionMachine", 500, 4000),
+        rapid("permission-machine", "rtpconn", "TestVerif_C11_PermissionMachine", 500, 4000, quick_shards=4),
         rapid("whip-ingest", "webserver", "TestVerif_C11_WhipIngest", 250, 2000),
     ],
     "technique": "model-based stateful property testing (rapid) of the signalling state machine",
@@ -117,9 +117,9 @@ PROPS["C11"] = {
 
 PROPS["C14"] = {
     "units": [
-        rapid("userlist-machine", "rtpconn", "TestVerif_C14_UserListConvergence", 500, 4000),
+        rapid("userlist-machine", "rtpconn", "TestVerif_C14_UserListConvergence", 500, 4000, quick_shards=4),
         rapid("delayed-observer", "rtpconn", "TestVerif_C14_DelayedObserver", 60, 500, shards=8),
-        rapid("interleaved-membership", "rtpconn", "TestVerif_C14_InterleavedMembership", 100, 1200, shards=8),
+        rapid("interleaved-membership", "rtpconn", "TestVerif_C14_InterleavedMembership", 100, 1200, shards=8, quick_shards=4),
     ],
     "technique": "model-based stateful property testing (rapid): views rebuilt from events vs true membership at quiescence",
     "assumptions": ["quiescence = all action queues drained and galene's broadcast goroutines finished (exact barrier on the goroutine dump)"],
@@ -127,7 +127,7 @@ PROPS["C14"] = {
 
 PROPS["C15"] = {
     "units": [
-        rapid("chat-machine", "rtpconn", "TestVerif_C15_ChatMachine", 500, 4000),
+        rapid("chat-machine", "rtpconn", "TestVerif_C15_ChatMachine", 500, 4000, quick_shards=4),
         rapid("history-model", "group", "TestVerif_C15_HistoryModel", 2000, 15000),
     ],
     "technique": "model-based stateful property testing (rapid): delivery model and history model",
@@ -136,7 +136,7 @@ PROPS["C15"] = {
 
 PROPS["C10"] = {
     "units": [
-        rapid("admission-machine", "rtpconn", "TestVerif_C10_AdmissionMachine", 500, 4000),
+        rapid("admission-machine", "rtpconn", "TestVerif_C10_AdmissionMachine", 500, 4000, quick_shards=4),
         rapid("racing-joins", "rtpconn", "TestVerif_C10_RacingJoins", 300, 2500, race=True, shards=8, race_scope=["/group/", "/unbounded/"]),
         rapid("last-operator-leaves", "rtpconn", "TestVerif_C10_LastOperatorLeaves", 24, 120, shards=8, timeout={"quick": 600, "thorough": 1800}),
     ],
@@ -149,7 +149,7 @@ PROPS["C08"] = {
         plain("regress", "rtpconn", "TestVerif_C08_Regress_.*"),
         rapid("decision-procedure", "group", "TestVerif_C08_DecisionProcedure", 4000, 30000),
         rapid("makepassword-roundtrip", "galenectl", "TestVerif_C08_MakePasswordRoundTrip", 1200, 8000),
-        rapid("login-machine", "rtpconn", "TestVerif_C08_LoginMachine", 250, 2000),
+        rapid("login-machine", "rtpconn", "TestVerif_C08_LoginMachine", 250, 2000, quick_shards=4),
     ],
     "technique": "property-based testing (rapid) against an independent decision procedure; metamorphic login-after-moderation machine",
     "assumptions": ["bcrypt inputs restricted to NUL-free strings of <=72 bytes, pbkdf2 keys >=16 bytes (limits of the primitives, not galene's claim)"],
@@ -177,7 +177,7 @@ PROPS["C12"] = {
         fuzz("codecs-gofuzz", "codecs", "FuzzVerif_C12_Codecs", 90),
         rapid("sdpfrag", "sdpfrag", "TestVerif_C12_SdpFrag", 3000, 20000),
         rapid("header-parsers", "webserver", "TestVerif_C12_HeaderParsers", 5000, 40000),
-        rapid("signalling-fuzz", "rtpconn", "TestVerif_C12_SignallingFuzz", 600, 5000),
+        rapid("signalling-fuzz", "rtpconn", "TestVerif_C12_SignallingFuzz", 600, 5000, quick_shards=4),
         rapid("http-surface", "webserver", "TestVerif_C12_HttpSurface", 3000, 20000),
     ],
     "technique": "property-based testing + fuzzing (rapid byte/structure generators, native go fuzz in the thorough tier) with a no-crash / response-received oracle",
@@ -197,7 +197,7 @@ PROPS["C19"] = {
     "units": [
         rapid("name-validators", "group", "TestVerif_C19_NameValidators", 20000, 150000),
         rapid("url-parsing", "webserver", "TestVerif_C19_UrlParsing", 8000, 60000),
-        rapid("confinement", "webserver", "TestVerif_C19_Confinement", 1500, 12000),
+        rapid("confinement", "webserver", "TestVerif_C19_Confinement", 1500, 12000, quick_shards=4),
         rapid("admitted-usernames", "group", "TestVerif_C19_AdmittedUsernames", 3000, 30000),
     ],
     "technique": "property-based testing (rapid): reference predicate for the validators; hostile usernames through every login route (password, wildcard, stateful and signed tokens) into AddClient; hostile request targets over raw TCP against the real server with sentinel files outside the roots",
